@@ -38,6 +38,22 @@ def cases(ctx):
                     if ctx.mine(k):
                         yield {"kind": "sweep", "flavour": flav, "mnemonic": cls.mnemonic,
                                "pos": list(pos) if pos else None, "base": codec.rand_values(rng, kinds)}
+    # operands that are not plain integers but are accepted by the instruction classes: template operands of rotations, and
+    # booleans as immediates (True is the integer 1)
+    for flav in ("vanilla", "nv"):
+        for m in sorted(x for x in isa.TABLE[flav] if x.startswith("rot_")):
+            for slot in (1, 2):
+                for special in ("template", "true", "false"):
+                    k += 1
+                    if ctx.mine(k):
+                        yield {"kind": "special", "flavour": flav, "mnemonic": m, "slot": slot, "special": special,
+                               "base": codec.rand_values(rng, isa.TABLE[flav][m][1]), "name": rng.choice(["delta", "t0", "angle_1", "n"])}
+    for m, slot in (("set", 1), ("jmp", 0), ("beq", 2), ("bez", 1)):
+        for special in ("true", "false"):
+            k += 1
+            if ctx.mine(k):
+                yield {"kind": "special", "flavour": "vanilla", "mnemonic": m, "slot": slot, "special": special,
+                       "base": codec.rand_values(rng, isa.TABLE["vanilla"][m][1]), "name": "x"}
     # user-defined flavours: one Flavour subclass instantiated for different devices (different instruction lists), and a
     # flavour object extended after construction - each must print/parse with its OWN instruction set
     for i in range(ctx.n(4, 2000)):
@@ -160,9 +176,37 @@ def _custom_flavour(ctx, case):
     ctx.case(case, True)
 
 
+def _special(ctx, case):
+    from netqasm.lang.operand import Immediate, Template
+    from netqasm.lang.parsing.text import parse_text_subroutine
+    flav, m, slot = case["flavour"], case["mnemonic"], case["slot"]
+    fobj = codec.flavour_obj(flav)
+    kinds = isa.TABLE[flav][m][1]
+    ops = [codec.mk_operand(kd, v) for kd, v in zip(kinds, case["base"])]
+    ops[slot] = Template(case["name"]) if case["special"] == "template" else Immediate(case["special"] == "true")
+    try:
+        instr = fobj.get_instr_by_name(m).from_operands(ops)
+    except Exception:
+        ctx.count("special_operand_not_accepted")
+        return ctx.case(case, False)
+    text = str(instr)
+    ctx.count("special_operand_print_parse_checks")
+    try:
+        parsed = parse_text_subroutine(text, flavour=fobj).instructions
+    except Exception as e:
+        ctx.fail(case, f"{flav}: the text {text!r} printed for {m} with a {case['special']} operand does not parse: {type(e).__name__}: {str(e)[:100]}")
+        return ctx.case(case, True)
+    if len(parsed) != 1 or parsed[0] != instr:
+        ctx.fail(case, f"{flav}: the text {text!r} printed for {m} with a {case['special']} operand parses back as {[str(x) for x in parsed]} "
+                       f"({[type(o).__name__ for o in parsed[0].operands] if parsed else ''})")
+    ctx.case(case, True)
+
+
 def run_case(ctx, case):
     from netqasm.lang.parsing import deserialize
     from netqasm.lang.parsing.text import parse_text_subroutine
+    if case["kind"] == "special":
+        return _special(ctx, case)
     if case["kind"] == "custom-flavour":
         return _custom_flavour(ctx, case)
     flav = case["flavour"]
